@@ -293,5 +293,7 @@ def run(ctx):
     ctx.guard("canonical", "fe32", lambda: _C15.check_canonical(ctx, P2, "fe32"))
     ctx.guard("fe-bounds", "fe64", lambda: febounds.check_fe64(ctx, P, "K0"))
     ctx.guard("fe-bounds", "fe32", lambda: febounds.check_fe32(ctx, P2, "K2"))
+    from . import sc32
+    ctx.guard("decode32", "fe32::from_bytes", lambda: sc32.check_decode32(ctx, P2))
     ctx.trusted.append("ssa term evaluator, bit-provenance and polynomial normal form (cxsa/ssa.py, termbits.py, poly.py), interval domain (bounds.py)")
-    ctx.not_decided += ["the field operations as numbers beyond their limb-polynomial identities and limb bounds", "fe32 from_bytes bit map (carry-based decoding, not a pure bit permutation): only its bounds and the bit-255 mask position are decided"]
+    ctx.not_decided += ["the field operations as numbers beyond their limb-polynomial identities and limb bounds", "fe32 to_bytes as a bit map"]
